@@ -568,8 +568,8 @@ Definition val_len (h : heap) (v : val) : res nat :=
 Definition assign (st : state) (h : heap) (x : var) (v : val) : res (state * rout) :=
   Ok (mkst h (bind_var (sstore st) x v), RV v).
 
-(* infn = true: the statement runs inside the body of OCall, where a name other than the parameter is reached
-   through a Reference (deleteMapEntry does not dereference: error), and creating a new local is outside the fragment *)
+(* infn = true: the statement runs inside the body of OCall, where a name other than the parameter is an outer
+   variable reached through a Reference (same effect as at top level); creating a new local is outside the fragment *)
 Definition target_ok (infn : bool) (st : state) (x : var) : bool :=
   if infn then Nat.eqb x param_var || (match lookup (sstore st) x with Some _ => true | None => false end) else true.
 
@@ -613,7 +613,10 @@ Definition prim_step (c : cfg) (o : oracle) (infn : bool) (st : state) (p : prim
       '(h1, v) <- arr_repeat c o h lv n ;;
       if negb (target_ok infn st x) then Dom else
       assign st h1 x v
-    | VInt _ => Dom
+    | VInt a =>
+      if negb (int64_ok (a * n)) then Dom else
+      if negb (target_ok infn st x) then Dom else
+      assign st h x (VInt (a * n)%Z)
     | _ => Err
     end
   | PSlice x y l r =>
@@ -650,7 +653,6 @@ Definition prim_step (c : cfg) (o : oracle) (infn : bool) (st : state) (p : prim
     match lookup s x with
     | None => Ok (st, RB false)
     | Some xv =>
-      if infn && negb (Nat.eqb x param_var) then Err else
       if negb (is_map xv) then Err else
       '(h1, m, ch) <- map_delete c o h xv k ;;
       if ch then Ok (mkst h1 (bind_var s x m), RB true) else Ok (mkst h1 s, RB false)
@@ -860,7 +862,9 @@ Definition p_prim_step (infn : bool) (s : list (var * pval)) (p : prim) : res (l
     | PArr l =>
       if (n <? 0)%Z then Err else
       if negb (p_target_ok infn s x) then Dom else p_assign s x (PArr (repeat_list l (Z.to_nat n)))
-    | PInt _ => Dom
+    | PInt a =>
+      if negb (int64_ok (a * n)) then Dom else
+      if negb (p_target_ok infn s x) then Dom else p_assign s x (PInt (a * n)%Z)
     | _ => Err
     end
   | PSlice x y l r =>
@@ -879,7 +883,6 @@ Definition p_prim_step (infn : bool) (s : list (var * pval)) (p : prim) : res (l
     match lookup s x with
     | None => Ok (s, PRB false)
     | Some xv =>
-      if infn && negb (Nat.eqb x param_var) then Err else
       match xv with
       | PMap l =>
         match kv_del l k with
